@@ -79,7 +79,7 @@ var FaultKinds = []string{
 	"omit-param-TYPE", "omit-param-ENUM", "omit-param-MACRO", "omit-param-PASTE", "omit-param-TAG", "omit-param-Tags", "omit-param-Protocol",
 	"omit-param-Method", "omit-param-JSIGHT", "omit-param-BaseUrl", "omit-param-SERVER", "omit-param-Title", "omit-param-Version", "omit-param-URL",
 	"undefined-type-shortcut", "undefined-type-array", "undefined-type-rule", "undefined-type-allOf", "undefined-type-param", "undefined-type-or",
-	"undefined-enum", "undefined-macro", "undefined-tag", "undefined-tag-like-auto", "undefined-tag-second-Tags", "similar-path-leading-param",
+	"undefined-enum", "undefined-macro", "undefined-tag", "undefined-tag-like-auto", "undefined-tag-second-Tags", "similar-path-leading-param", "dup-through-second-PASTE",
 }
 
 // InjectFault puts exactly one fault of a drawn kind into a copy of the valid
@@ -333,6 +333,46 @@ func InjectFault(t *rapid.T, doc0 *Doc) (*Doc, Fault, bool) {
 		doc.Top = insertAfter(doc.Top, 0, pd)
 		return []int{pd.ID}
 	})
+	// one declaration brought in twice by PASTE: the same macro pasted a second
+	// time, directly or through another macro
+	add("dup-through-second-PASTE", func() []int {
+		n := f.id()
+		var decl *Dir
+		switch rapid.IntRange(0, 3).Draw(t, "declKind") {
+		case 0:
+			decl = &Dir{ID: f.id(), Kw: "ENUM", Params: []string{fmt.Sprintf("@zzenum%d", n)}, Enum: []EnumVal{{IsInt: true, Int: 1}}}
+		case 1:
+			decl = &Dir{ID: f.id(), Kw: "TYPE", Params: []string{fmt.Sprintf("@zztype%d", n)}, Schema: &Schema{Notation: "jsight", Root: "obj", Obj: &Obj{}}}
+		case 2:
+			decl = &Dir{ID: f.id(), Kw: "TAG", Params: []string{fmt.Sprintf("@zztag%d", n)}}
+		default:
+			decl = &Dir{ID: f.id(), Kw: "SERVER", Params: []string{fmt.Sprintf("@zzserver%d", n)}, Children: []*Dir{{ID: f.id(), Kw: "BaseUrl", Params: []string{"https://zz.example/"}}}}
+		}
+		mname := fmt.Sprintf("@zzmacro%d", n)
+		m := &Dir{ID: f.id(), Kw: "MACRO", Params: []string{mname}, Explicit: true, Children: []*Dir{decl}}
+		p1 := &Dir{ID: f.id(), Kw: "PASTE", Params: []string{mname}}
+		p2 := &Dir{ID: f.id(), Kw: "PASTE", Params: []string{mname}}
+		off := []int{decl.ID, p1.ID, p2.ID}
+		units := []*Dir{m, p1}
+		if rapid.Bool().Draw(t, "throughAnotherMacro") {
+			wname := fmt.Sprintf("@zzwrap%d", n)
+			inner := &Dir{ID: f.id(), Kw: "PASTE", Params: []string{mname}}
+			w := &Dir{ID: f.id(), Kw: "MACRO", Params: []string{wname}, Explicit: true, Children: []*Dir{inner}}
+			p2.Params = []string{wname}
+			off = append(off, inner.ID)
+			units = append(units, w)
+		}
+		units = append(units, p2)
+		// each unit at a drawn top-level position after the JSIGHT line (macros may be used before they are defined)
+		for _, u := range units {
+			pos := rapid.IntRange(0, len(doc.Top)-1).Draw(t, "unitPos")
+			for pos+1 < len(doc.Top) && doc.Top[pos+1].Hoisted {
+				pos++
+			}
+			doc.Top = insertAfter(doc.Top, pos, u)
+		}
+		return off
+	})
 	if len(sites) == 0 {
 		return doc, Fault{}, false
 	}
@@ -350,6 +390,7 @@ func InjectFault(t *rapid.T, doc0 *Doc) (*Doc, Fault, bool) {
 	ss := byKind[kind]
 	site := ss[rapid.IntRange(0, len(ss)-1).Draw(t, "faultSite")]
 	off := site.apply()
+	pastedMacros = ReachableMacros(doc)
 	fault := Fault{Kind: kind, Offenders: off, Route: "direct"}
 	// route classification
 	offSet := map[int]bool{}
